@@ -150,8 +150,10 @@ def run(prog: Program) -> Results:
             if isinstance(c, ast.Call) and isinstance(c.func, ast.Name) and c.func.id == "_resolve_identifier":
                 rec_sites.append((g, c))
     r3.instances += len(rec_sites)
-    if len(rec_sites) < 3:
-        res.unclass(f"_resolve_identifier: only {len(rec_sites)} recursive call sites found (floor 3)")
+    # confirmed on the reviewed tree: 4 sites (reference chain: 1, inherit: 3).  The three inherit continuations may be written
+    # as one `return` after the arms that pick the chain, so the anchor that must not vanish is one site per kind of continuation
+    if len(rec_sites) < 2:
+        res.unclass(f"_resolve_identifier: only {len(rec_sites)} recursive call sites found (floor 2: reference chain, inherit)")
     for g, c in rec_sites:
         args = [norm(a) for a in c.args] + [norm(k.value) for k in c.keywords]
         vparams = ri.params()[2:4]
@@ -257,37 +259,31 @@ def run(prog: Program) -> Results:
                   "in layer i continues with the chain cut at layer i (outer chain for plain inherit)", floor=6)
     fn = ri.node
     sparam = ri.params()[1]
-    loop = None
-    for n in fn.body:
-        if isinstance(n, ast.For) and isinstance(n.iter, ast.Call) and callee(n.iter) == "enumerate" and n.iter.args \
-                and isinstance(n.iter.args[0], ast.Name) and isinstance(n.target, ast.Tuple):
-            loop = n
+    # the scan, read as what it denotes (sa/scanform.py): positions p = n-1 … 0 of the chain F handed in (outer to inner); the chain
+    # of the layer examined is F[:p+1], the chain outside it F[:p] — whether it is written over reversed(F) with enumerate or over F
+    # with a descending range
+    from sa.scanform import ScanForm
+    sf = ScanForm(fn, sparam)
+    loop = sf.loop if sf.error is None else None
     chain_name = outer_name = None
     if loop is None:
-        res.unclass("_resolve_identifier: the `for index, scope in enumerate(<ordered scopes>)` scan was not found")
+        res.unclass(f"_resolve_identifier: {sf.error}")
     else:
-        lst = loop.iter.args[0].id
-        idx = loop.target.elts[0].id
-        od = [d for d in assignments_to(fn, lst)]
+        lst, idx = sf.L, sf.v
         r5.instances += 1
-        from sa.seqbuild import _rev as _rv
-        _it, _isrev = _rv(od[0].value.generators[0].iter) if (len(od) == 1 and isinstance(od[0].value, (ast.ListComp, ast.GeneratorExp))) else (None, False)
-        ok = _it is not None and norm(_it) == sparam and _isrev
-        r5.ob(ok, {"scan": norm(od[0].value)[:80] if od else None})
+        ok = sf.innermost_first()
+        r5.ob(ok, {"scan": norm(loop.iter)[:60], "list": lst, "list_is_reversed_chain": sf.L_rev, "position_of_scope": str(sf.position())})
         if not ok:
-            res.add("R-C10-5", ("_resolve_identifier", "scan order"), ri.loc(od[0] if od else None),
-                    f"the lookup does not scan `reversed({sparam})` (innermost scope first)")
-        from sa.seqexpr import canon, single_def_resolver
-        want_chain = f"tuple(reversed({lst}[{idx}:]))"
-        want_outer = f"tuple(reversed({lst}[{idx} + 1:]))"
-        c_chain, c_outer = ("slice", lst, idx, 0, True), ("slice", lst, idx, 1, True)  # canonical forms (sa/seqexpr.py)
-        _res = single_def_resolver(fn)
+            res.add("R-C10-5", ("_resolve_identifier", "scan order"), ri.loc(loop),
+                    f"the lookup does not scan `{sparam}` from its last scope to its first (innermost scope first): the scope examined "
+                    f"in the first iteration is not the innermost one, or the scan moves inwards")
+        want_chain = "the chain up to and including the scope examined"
+        want_outer = "the chain outside the scope examined"
         for d in ast.walk(loop):
             if isinstance(d, ast.Assign) and isinstance(d.targets[0], ast.Name):
-                cv = canon(d.value, _res)
-                if cv == c_chain:
+                if sf.is_chain(d.value):
                     chain_name = d.targets[0].id
-                if cv == c_outer:
+                if sf.is_outer(d.value):
                     outer_name = d.targets[0].id
         # every continuation happens in the iteration that found the binder (an inherit clause of layer i shadows plain bindings of
         # the layers outside it)
@@ -305,12 +301,11 @@ def run(prog: Program) -> Results:
         for c in ast.walk(loop):
             if isinstance(c, ast.Call) and isinstance(c.func, ast.Name) and c.func.id in closures and c.func.id != "_inherit_matches":
                 r5.instances += 1
-                ca = [canon(x, _res) for x in c.args]
                 nparams = len(closures[c.func.id].params())
                 if nparams >= 3:
-                    ok = len(ca) >= 3 and ca[1] == c_chain and ca[2] == c_outer
+                    ok = len(c.args) >= 3 and sf.is_chain(c.args[1]) and sf.is_outer(c.args[2])
                 else:
-                    ok = len(ca) >= 2 and ca[1] == c_chain
+                    ok = len(c.args) >= 2 and sf.is_chain(c.args[1])
                 r5.ob(ok, {"call": norm(c), "cut_chain": chain_name, "outer_chain": outer_name})
                 if not ok:
                     res.add("R-C10-5", ("_resolve_identifier", "chain argument", c.func.id), ri.loc(c),
@@ -442,6 +437,12 @@ def run(prog: Program) -> Results:
                         or (isinstance(d.value, ast.Attribute) and d.value.attr == "from_expression"))), None)
         if fe is None:
             res.unclass("_resolve_inherited_binding: the read of `from_expression` was not recognised")
+        from sa.cfg import ReachingDefs as _RD
+        rrd = _RD(rcfg)
+        fe_defs = [d for d in walk_no_nested(rib.node) if isinstance(d, ast.Assign) and isinstance(d.targets[0], ast.Name) and norm(d.targets[0]) == fe
+                   and ((isinstance(d.value, ast.Call) and callee(d.value) == "getattr" and len(d.value.args) > 1
+                         and isinstance(d.value.args[1], ast.Constant) and d.value.args[1].value == "from_expression")
+                        or (isinstance(d.value, ast.Attribute) and d.value.attr == "from_expression"))]
         plain = _ee(rcfg, lambda a, t: fe is not None and ((norm(a) == f"{fe} is None" and t is True) or (norm(a) == f"{fe} is not None" and t is False)))
         for n in rcfg.nodes:
             if n.ast is None or n.kind not in ("stmt", "return", "test"):
@@ -451,6 +452,10 @@ def run(prog: Program) -> Results:
                     continue
                 nm = callee(c)
                 if nm == "set_resolution_context" and len(c.args) >= 2 and fe is not None and norm(c.args[0]) == fe:
+                    # the local may be reused for the evaluated source (`source = source.value`): the call is about the
+                    # `from_expression` itself only while the read of that field is the definition that reaches it
+                    if not all(d_ in fe_defs for d_ in rrd.defs_at(n, fe)):
+                        continue
                     r5.instances += 1
                     ok = norm(c.args[1]) == chain_p
                     r5.ob(ok, {"site": rib.key, "inherit_source_context": norm(c)[:70]})
@@ -461,16 +466,26 @@ def run(prog: Program) -> Results:
                                 f"in that very layer is skipped and an outer binding of the same name wins")
                 elif nm == "_resolve_identifier" and len(c.args) >= 2:
                     r5.instances += 1
-                    in_plain = bool(plain) and rcfg.all_paths_pass(n, cut_edges=plain)
+                    from sa.seqexpr import canon as _canon, appended as _appended
                     a1 = c.args[1]
-                    if in_plain:
-                        ok = norm(a1) == outer_p
-                        want = outer_p
-                    else:
-                        from sa.seqexpr import canon as _canon, appended as _appended
-                        ds = [d for d in ast.walk(rib.node) if isinstance(d, ast.Assign) and norm(d.targets[0]) == norm(a1)]
-                        ok = bool(ds) and all(_canon(d.value) == _appended(chain_p) for d in ds)
-                        want = f"tuple(list({chain_p}) + [<source scope>])"
+                    # the chain handed on, per definition that reaches the call (one `return` after an if/elif that picks the
+                    # chain is the same as a `return` in every arm): (statement it is decided at, expression)
+                    cases = [(n, a1)]
+                    if isinstance(a1, ast.Name) and a1.id not in rib.params():
+                        ds = [d for d in rrd.defs_at(n, a1.id) if isinstance(d, ast.Assign)]
+                        cases = [(rcfg.node_of(d), d.value) for d in ds if rcfg.node_of(d) is not None] or [(n, a1)]
+                    ok, in_plain, want = True, False, ""
+                    for dn_, v_ in cases:
+                        pl_ = bool(plain) and rcfg.all_paths_pass(dn_, cut_edges=plain)
+                        in_plain = in_plain or pl_
+                        if pl_:
+                            ok_ = norm(v_) == outer_p
+                            w_ = outer_p
+                        else:
+                            ok_ = _canon(v_) == _appended(chain_p)
+                            w_ = f"tuple(list({chain_p}) + [<source scope>])"
+                        if not ok_:
+                            ok, want = False, w_
                     r5.ob(ok, {"site": rib.key, "continuation": norm(c)[:60], "plain_inherit": in_plain})
                     if not ok:
                         res.add("R-C10-5", (rib.key, "inherit continues with the wrong chain", "plain" if in_plain else "from"), rib.loc(c),
@@ -501,7 +516,9 @@ def run(prog: Program) -> Results:
         if not prog.has_func(key):
             continue
         g = prog.func(key)
-        for m_ in [n for n in walk_no_nested(g.node) if isinstance(n, ast.Match)]:
+        from sa.util import tail_into_cases
+        gnode = tail_into_cases(g.node)  # arms that only pick the expression / chain and share one recursive call after the match
+        for m_ in [n for n in walk_no_nested(gnode) if isinstance(n, ast.Match)]:
             subj = norm(m_.subject)
             for cs in m_.cases:
                 pats = cs.pattern.patterns if isinstance(cs.pattern, ast.MatchOr) else [cs.pattern]
